@@ -204,6 +204,7 @@ TN_TYPES = [
     ("((int32, bool), string)", '((1, true), "s")'), ("(int32, (bool, string))", '(1, (true, "s"))'), ("(int32, bool, string)", '(1, true, "s")'), ("Bq[int32]", "Bq { v: 1 }"), ("Bq[bool]", "Bq { v: true }"),
     ("Bq[(int32, bool)]", "Bq { v: (1, true) }"), ("Bq[[int32; 2]]", "Bq { v: [1, 2] }"), ("Bq[Bq[int32]]", "Bq { v: Bq { v: 1 } }"), ("Pq", "Pq { a: 1 }"), ("Eq", "Eqa"), ("(int32) -> int32", "idq"), ("(int32) -> bool", "posq"),
     ("(int32, int32) -> int32", "addq"), ("((int32) -> int32, int32)", "(idq, 1)"), ("dyn Tq", "dq"),
+    ("Oq[int32]", "Sq(1)"), ("Oq[bool]", "Sq(true)"), ("Oq[Oq[int32]]", "Sq(Sq(1))"), ("Oq[Bq[int32]]", "Sq(Bq { v: 1 })"),
     ("((int32, int32), int32, int32)", "((1, 2), 3, 4)"), ("((int32, int32, int32), int32)", "((1, 2, 3), 4)"), ("(int32, (int32, int32), int32)", "(1, (2, 3), 4)"),
 ]
 
@@ -213,12 +214,13 @@ TN_FAMILIES = [
     ["Ref[int32]", "Ref[bool]", "Ref[[int32; 2]]", "Ref[Vec[int32]]"], ["(int32, bool)", "(bool, int32)", "(int32, bool, string)"], ["((int32, bool), string)", "(int32, (bool, string))", "(int32, bool, string)"],
     ["Bq[int32]", "Bq[bool]", "Bq[(int32, bool)]", "Bq[[int32; 2]]", "Bq[Bq[int32]]"], ["(int32) -> int32", "(int32) -> bool", "(int32, int32) -> int32"], ["int32", "bool", "string", "Pq", "Eq", "dyn Tq"],
     ["((int32, int32), int32, int32)", "((int32, int32, int32), int32)", "(int32, (int32, int32), int32)"],
+    ["Oq[int32]", "Oq[bool]", "Oq[Oq[int32]]", "Oq[Bq[int32]]"],
 ]
 
 
 def typename_program(rng, n):
     """n functions, each taking a tuple of two types drawn from structurally confusable types: every distinct type must get its own Go name"""
-    head = ("struct Bq[T] { v: T }\nstruct Pq { a: int32 }\nenum Eq { Eqa, Eqb(int32) }\ntrait Tq { fn tq(Self) -> int32; }\nimpl Tq for int32 { fn tq(self: int32) -> int32 { self } }\n"
+    head = ("struct Bq[T] { v: T }\nenum Oq[T] { Nq, Sq(T) }\nstruct Pq { a: int32 }\nenum Eq { Eqa, Eqb(int32) }\ntrait Tq { fn tq(Self) -> int32; }\nimpl Tq for int32 { fn tq(self: int32) -> int32 { self } }\n"
             "fn idq(x: int32) -> int32 { x }\nfn posq(x: int32) -> bool { x > 0 }\nfn addq(x: int32, y: int32) -> int32 { x + y }\n"
             "fn mkvi() -> Vec[int32] { vec_new() }\nfn mkvb() -> Vec[bool] { vec_new() }\nfn mkva2() -> Vec[[int32; 2]] { vec_new() }\nfn mkva3() -> Vec[[int32; 3]] { vec_new() }\nfn mkvv() -> Vec[Vec[int32]] { vec_new() }\n")
     fns, calls = [], ["    let dq: dyn Tq = 5;"]
